@@ -60,10 +60,7 @@ func MapRange[M ~map[K]V, K comparable, V any](m M, site string) iter.Seq2[K, V]
 			keys = append(keys, k)
 		}
 		sortKeys(keys)
-		choose := Active != nil && !MapOrderOff && len(keys) > 1 && (MapSiteFilter == nil || MapSiteFilter(site))
-		if choose {
-			MapRangeCount++
-		}
+		choose := wantChoice(site, len(keys))
 		for len(keys) > 0 {
 			i := 0
 			if choose && len(keys) > 1 {
@@ -80,6 +77,31 @@ func MapRange[M ~map[K]V, K comparable, V any](m M, site string) iter.Seq2[K, V]
 			}
 		}
 	}
+}
+
+// wantChoice reads the harness-owned switches. It is //go:norace because the
+// harness toggles them around observations made from controlled threads whose
+// hand-off is invisible to the race detector.
+//
+//go:norace
+func wantChoice(site string, n int) bool {
+	if Active == nil || MapOrderOff || n <= 1 {
+		return false
+	}
+	if MapSiteFilter != nil && !MapSiteFilter(site) {
+		return false
+	}
+	MapRangeCount++
+	return true
+}
+
+// SetMapOrderOff sets MapOrderOff and returns the previous value.
+//
+//go:norace
+func SetMapOrderOff(b bool) bool {
+	old := MapOrderOff
+	MapOrderOff = b
+	return old
 }
 
 func sortKeys[K comparable](keys []K) {
